@@ -49,7 +49,9 @@ def syntax_msg(e):
 
 def skeletons(rng):
     """(prefix, suffix) pairs around a planted element, with newlines and non-ASCII text before the fault"""
-    pre = rng.choice(['', 'é ü\n', '<div class="c">\n  ', '<html>\n<body>\n\t<p>intro ${1}</p>\n  ', 'text &amp; more\n\n'])
+    pre = rng.choice(['', 'é ü\n', '<div class="c">\n  ', '<html>\n<body>\n\t<p>intro ${1}</p>\n  ', 'text &amp; more\n\n',
+                      # characters that str.splitlines() takes for line ends but that are not: only \\n counts (lines are what an editor shows)
+                      'page 1\x0cpage 2\n  ', 'a\x0bb \x1c\x1d\x1e c\n', 'next\x85line \u2028 sep \u2029 para\n\n '])
     post = rng.choice(['', '\n</div>' if pre.startswith('<div') else '', '\n  </body>\n</html>' if pre.startswith('<html') else ''])
     if pre.startswith('<div') and not post:
         post = '</div>'
